@@ -433,6 +433,13 @@ fn run_interleaving(b: &Bodies, reqs: &[Req], order: &[Ev]) -> Result<Vec<String
             if let Err(e) = health_ok(port) {
                 v.push(format!("before event {} ({} of request {}): {}", k + 1, point, i + 1, e));
             }
+            // ... and reject requests that fail before the handler (they pass no gate, so they complete here)
+            for r in [Req::M, Req::W] {
+                let (resp, input) = send(port, b, r, None);
+                for m in judge(r, &resp, &input) {
+                    v.push(format!("{} sent before event {} ({} of request {}): {}", r.name(), k + 1, point, i + 1, m));
+                }
+            }
             let _ = std::fs::write(dir.join(format!("r{}.{}.go", i, point)), b"");
         }
         handles.into_iter().map(|h| h.join().expect("client thread")).collect()
@@ -589,7 +596,7 @@ pub fn check(tier: &str) -> i32 {
     report.cov("distinct_sequence_outcomes", json!(distinct_outcomes.into_inner().unwrap().len()));
     report.cov("sampled_burst_requests", json!(burst_requests));
     report.cov("sampled_burst_failures", json!(burst_failures));
-    report.cov("rule", json!("Alphabet: health, solve(x), solve(y) (instances with disjoint ids, so an answer identifies its request), malformed JSON, wrong content type, semantically invalid body (dangling route reference => panic in the loader), a body that loads but makes the solver panic (cost coefficient 10^15 => overflow guard of the flow model). (i) every sequence over the alphabet up to the stated length on a fresh real server, health probe after each element; (ii) for every multiset of solve-type requests {solve(x), solve(y), invalid, solver-panics} up to the stated size, every order of their enter/exit events consistent with program order (a panicking request has no exit), forced through the H3 gates, health probe before each event. Each valid solve must get 200 and an answer passing the C01-C05 oracles for its own instance. Non-trivial = sequences mixing a faulty and a valid request + interleavings with two requests inside the handler at once."));
+    report.cov("rule", json!("Alphabet: health, solve(x), solve(y) (instances with disjoint ids, so an answer identifies its request), malformed JSON, wrong content type, semantically invalid body (dangling route reference => panic in the loader), a body that loads but makes the solver panic (cost coefficient 10^15 => overflow guard of the flow model), solve(big) (instance y over a network of 460 further locations: a body above 2 MiB). (i) every sequence over the alphabet up to the stated length on a fresh real server, health probe after each element; (ii) for every multiset of solve-type requests {solve(x), solve(y), invalid, solver-panics} up to the stated size, every order of their enter/exit events consistent with program order (a panicking request has no exit), forced through the H3 gates; before each event a health probe, a malformed-JSON request and a wrong-content-type request are sent and judged (requests are parked inside the handler meanwhile). Each valid solve must get 200 and an answer passing the C01-C05 oracles for its own instance. Non-trivial = sequences mixing a faulty and a valid request + interleavings with two requests inside the handler at once."));
     report.cov("exhaustive", json!(true));
     report.cov("samples", json!([{"sequence": ["semantically-invalid", "solve(x)", "health"]}, {"requests": ["solve(x)", "solve(y)"], "order": ["enter 1", "enter 2", "exit 2", "exit 1"]}]));
     report.assume("interleavings are controlled at handler granularity only (tokio, hyper, rayon and the allocator are not instrumented; loom/shuttle cannot run the tokio I/O runtime); the free-running burst is sampling and carries no exhaustiveness claim");
